@@ -56,9 +56,20 @@ fn operand(r: &mut Rng, i: usize, nbytes: usize, salt: u64) -> Vec<u8> {
         1 => v.iter_mut().for_each(|b| *b = 0xff),
         2 => v.iter_mut().enumerate().for_each(|(k, b)| *b = k as u8),
         3 => v.iter_mut().enumerate().for_each(|(k, b)| *b = 0xf0u8.wrapping_sub(k as u8).wrapping_mul(7)),
+        // repeated units: 128-bit lanes (or 32-bit words of a single lane) equal in pairs, as a
+        // "broadcast" shortcut would look for: [a,a,b,b] [a,b,c,c] [a,a,b,c] [a,b,a,b] [a,b,b,a] [0,0,a,a]
+        4..=9 => {
+            let unit = if nbytes > 16 { 16 } else { 4 };
+            let n = nbytes / unit;
+            let vals: Vec<Vec<u8>> = (0..4).map(|k| if k == 3 { vec![0u8; unit] } else { r.bytes(unit) }).collect();
+            let map: [usize; 4] = [[0, 0, 1, 1], [0, 1, 2, 2], [0, 0, 1, 2], [0, 1, 0, 1], [0, 1, 1, 0], [3, 3, 0, 0]][i - 4];
+            for k in 0..n {
+                v[k * unit..(k + 1) * unit].copy_from_slice(&vals[map[k % 4]]);
+            }
+        }
         _ => {
             let nbits = nbytes * 8;
-            let j = i - 4;
+            let j = i - 10;
             if j % 3 != 2 {
                 // one-hot walk: a seed-dependent start, then consecutive bits (covers all bits when n >= 1.5 * nbits)
                 let bit = (salt as usize + j - j / 3) % nbits;
